@@ -292,13 +292,13 @@ Section Sim.
   Qed.
 
   Lemma sim_directive rr rd : simrel rr rd -> noflag rd ->
-    forall top (s : st) name first content mp ns h,
+    forall top (s : st) name first content mp pre ns h,
       good top s ->
       (do position <- token_line mp;
-       den_directive env orc rd top (shr s) name first content position) = Ok (ns, h, false) ->
-      render_directive env orc rr s name first content mp = ext s ns h.
+       den_directive env orc rd top (shr s) name first content position pre) = Ok (ns, h, false) ->
+      render_directive env orc rr s name first content mp pre = ext s ns h.
   Proof.
-    intros Hsim Hnf top s name first content mp ns h Hg H.
+    intros Hsim Hnf top s name first content mp pre ns h Hg H.
     unfold render_directive. destruct (token_line mp) as [position|]; [|discriminate].
     simpl in *. unfold den_directive in H. unfold run_directive.
     destruct (o_dir_lookup orc name) as [[kind cls]|].
@@ -313,11 +313,11 @@ Section Sim.
     destruct kind as [titled| |].
     - (* admonition *)
       destruct (o_adm_run orc shared (den_mock_state env orc rd position) titled name (p_args p)
-                  attrs (p_body p) (p_off p) position (shr s)) as [x|] eqn:E; [|discriminate].
+                  attrs (p_body p) (p_off p - pre)%nat position (shr s)) as [x|] eqn:E; [|discriminate].
       simpl in H.
       rewrite <- Hshr1 in E.
       rewrite (sim_adm rr rd Hsim Hnf s1 position titled name (p_args p) attrs (p_body p)
-                 (p_off p) x (proj1 Hg1) E). simpl.
+                 (p_off p - pre)%nat x (proj1 Hg1) E). simpl.
       destruct (fst x) as [out|lvl msg]; inversion H; subst ns h; simpl;
         rewrite extend_cur_ext; simpl; rewrite ext_set_shr;
         rewrite (ext_ext _ _ _ _ _ _ Hs1); reflexivity.
@@ -331,44 +331,54 @@ Section Sim.
       destruct literal.
       { simpl in H. inversion H; subst ns h. simpl. rewrite extend_cur_ext.
         rewrite (ext_ext _ _ _ _ _ _ Hs1). rewrite Hshr1. reflexivity. }
-      destruct (den_nested env orc rd top (shr s) (join nl (splitlines file)) (0 + 1) false iho)
+      rewrite Hshr1.
+      destruct (mem_str a (o_source orc :: s_incl (shr s))).
+      { simpl in H. inversion H; subst ns h. simpl. rewrite extend_cur_ext.
+        rewrite (ext_ext _ _ _ _ _ _ Hs1). rewrite Hshr1. reflexivity. }
+      destruct (den_nested env orc rd top (set_incl (s_incl (shr s) ++ [a]) (shr s))
+                  (join nl (splitlines file)) (0 + 1) false iho)
         as [[[direct h'] b]|] eqn:E; [|discriminate].
       simpl in H. inversion H; subst ns h b.
-      rewrite <- Hshr1 in E.
-      rewrite (sim_nested rr rd Hsim top s1 _ _ _ _ direct h' Hg1 E).
+      set (s1' := set_shr (set_incl (s_incl (shr s) ++ [a]) (shr s)) s1).
+      assert (Hg1' : good top s1') by exact Hg1.
+      rewrite (sim_nested rr rd Hsim top s1' _ _ _ _ direct h' Hg1' E).
+      unfold s1'. rewrite ext_set_shr.
       destruct (ext_total s1 direct h' (proj1 Hg1)) as [s2 Hs2]. rewrite Hs2. simpl.
-      rewrite extend_cur_ext.
+      rewrite extend_cur_ext. simpl.
       destruct (ext_props _ _ _ _ _ Hg1 Hs2) as [_ [_ [_ [_ [Hshr2 _]]]]]. rewrite Hshr2.
-      rewrite (ext_ext _ _ _ _ [] h' Hs2). rewrite (ext_ext _ _ _ _ _ h' Hs1). reflexivity.
+      rewrite ext_set_shr.
+      rewrite (ext_ext _ _ _ _ [] _ Hs2). rewrite (ext_ext _ _ _ _ _ _ Hs1). reflexivity.
     - (* any other directive *)
       rewrite Hshr1.
-      destruct (o_other_directive orc name (p_args p) (p_optblock p) (p_body p) (p_off p)
+      destruct (o_other_directive orc name (p_args p) (p_optblock p) (p_body p) (p_off p - pre)%nat
                   position (shr s)) as [ons h'].
       simpl in H. inversion H; subst ns h. simpl. rewrite extend_cur_ext. simpl.
       rewrite ext_set_shr. rewrite (ext_ext _ _ _ _ _ _ Hs1). reflexivity.
   Qed.
 
   Lemma noflag_directive rd : noflag rd ->
-    forall h name first content position ns h' b,
-      den_directive env orc rd false h name first content position = Ok (ns, h', b) -> b = false.
+    forall h name first content position pre ns h' b,
+      den_directive env orc rd false h name first content position pre = Ok (ns, h', b) -> b = false.
   Proof.
-    intros Hnf h name first content position ns h' b H. unfold den_directive in H.
+    intros Hnf h name first content position pre ns h' b H. unfold den_directive in H.
     destruct (o_dir_lookup orc name) as [[kind cls]|]; [|inversion H; reflexivity].
     destruct (parse_directive_text cls first content) as [p|e]; [|inversion H; reflexivity].
     destruct (o_opt_validate orc name (p_optblock p)) as [attrs warns].
     destruct kind as [titled| |].
     - destruct (o_adm_run orc shared (den_mock_state env orc rd position) titled name (p_args p)
-                  attrs (p_body p) (p_off p) position h) as [x|]; [|discriminate].
+                  attrs (p_body p) (p_off p - pre)%nat position h) as [x|]; [|discriminate].
       simpl in H. destruct (fst x); inversion H; reflexivity.
     - unfold den_include in H.
       destruct (p_args p) as [|a args']; [discriminate|].
       destruct (o_fs_read orc a) as [file|]; [|simpl in H; inversion H; reflexivity].
       destruct (o_include_opts orc (p_optblock p)) as [literal iho].
       destruct literal; [simpl in H; inversion H; reflexivity|].
-      destruct (den_nested env orc rd false h (join nl (splitlines file)) (0 + 1) false iho)
+      destruct (mem_str a (o_source orc :: s_incl h)); [simpl in H; inversion H; reflexivity|].
+      destruct (den_nested env orc rd false (set_incl (s_incl h ++ [a]) h)
+                  (join nl (splitlines file)) (0 + 1) false iho)
         as [[[direct h2] b2]|] eqn:E; [|discriminate].
       simpl in H. inversion H; subst. eapply noflag_nested; eauto.
-    - destruct (o_other_directive orc name (p_args p) (p_optblock p) (p_body p) (p_off p)
+    - destruct (o_other_directive orc name (p_args p) (p_optblock p) (p_body p) (p_off p - pre)%nat
                   position h) as [ons h2].
       simpl in H. inversion H; reflexivity.
   Qed.
